@@ -393,23 +393,33 @@ func vsFinishPlain(threads []*vsThread) {
 	vs.active = false
 }
 
+// Program discipline (what linkedBuffer does, and what the theorems' programs assume): once a buffer has
+// been linked to its successor (update with link), the buffers of that message are given back only through
+// recycleBuffers (freeChain) — freeing a linked buffer on its own and then recycling the chain would free
+// it twice, which is a misuse of the allocator, not a defect of it.
 func c01Progs(r *vrand, nthr, maxOps int) [][]c01Op {
 	progs := make([][]c01Op, nthr)
 	for i := range progs {
 		k := 1 + r.intn(maxOps)
+		linked := false
 		for j := 0; j < k; j++ {
 			x := r.intn(100)
 			switch {
 			case x < 50 || j == 0:
 				progs[i] = append(progs[i], c01Op{K: "alloc"})
-			case x < 68:
+			case x < 68 && !linked:
 				progs[i] = append(progs[i], c01Op{K: "freeOldest"})
-			case x < 78:
+			case x < 78 && !linked:
 				progs[i] = append(progs[i], c01Op{K: "freeNewest"})
 			case x < 90:
-				progs[i] = append(progs[i], c01Op{K: "update", Sz: 1 + r.intn(15), Link: r.chance(60)})
+				lk := r.chance(60)
+				progs[i] = append(progs[i], c01Op{K: "update", Sz: 1 + r.intn(15), Link: lk})
+				if lk {
+					linked = true
+				}
 			default:
 				progs[i] = append(progs[i], c01Op{K: "freeChain"})
+				linked = false
 			}
 		}
 	}
